@@ -8,6 +8,7 @@ import (
 	"fmt"
 	"net"
 	"sort"
+	"strings"
 	"sync"
 	"sync/atomic"
 	gotime "time"
@@ -57,6 +58,24 @@ func StartServer(o ServerOpts) (*Server, error) {
 	if !verifhook.Enabled {
 		return nil, fmt.Errorf("harness must be built with -tags verif")
 	}
+	// Several harness processes pick free ports at the same time: retry on a
+	// lost race for a port.
+	var lastErr error
+	for try := 0; try < 20; try++ {
+		s, err := startServerOnce(o)
+		if err == nil {
+			return s, nil
+		}
+		lastErr = err
+		if !strings.Contains(err.Error(), "address already in use") {
+			return nil, err
+		}
+		gotime.Sleep(gotime.Duration(20*(try+1)) * gotime.Millisecond)
+	}
+	return nil, lastErr
+}
+
+func startServerOnce(o ServerOpts) (*Server, error) {
 	_ = logging.SetLogLevel("fatal")
 	port := freePort()
 	pport := freePort()
